@@ -440,7 +440,10 @@ class ArrayWorld(object):
         plan = getattr(self, "plan", None)
         while plan:
             f = plan.pop(0)
-            st = f(self, rng)
+            try:
+                st = f(self, rng)
+            except (IndexError, ValueError, KeyError, Skip):
+                st = None
             if st is not None:
                 return st
             self.plan = plan = []
@@ -462,7 +465,10 @@ class ArrayWorld(object):
             cfg["_opweights"] = [fams[self.ops[n].family] * self.ops[n].weight for n in names]
         for _ in range(12):
             nm = rng.choices(names, cfg["_opweights"])[0]
-            st = self.ops[nm].gen(self, rng)
+            try:
+                st = self.ops[nm].gen(self, rng)
+            except (IndexError, ValueError, KeyError, Skip):
+                st = None       # a generator met a state it has no candidate for (empty choice): try another op
             if st is not None:
                 st["op"] = nm
                 # keep only some results alive, the more so the fuller the pool is
